@@ -8,12 +8,12 @@ CFG = {
                    "writes (segment on demand + tick with the data time, as the write path does), clock schedules landing on and around expiry edges and cron times, forced cleanup; oracle at every quiescent point "
                    "with d = now - TTL: a segment ending after d is on disk and visible, one ending before d is never served, a directory disappears only if expired or as the single oldest one per forced-cleanup call, "
                    "and after one more cron time every expired segment is physically gone"),
-    "level_note": "trusted: the deadline oracle; a trivial table type stands for the engines' tables; fixed UTC zone (zones are C06's subject)",
+    "level_note": "scenario disk-pressure-groups runs the disk monitor's forced-cleanup step (deleteOldestSegment, real code through an accessor; the periodic loop and the disk-usage probe are not started) over 2-5 real databases with 1-4 day segments each and a tape-chosen group order: at most one segment is removed per call and it is the globally oldest deletable one; trusted: the deadline oracle; a trivial table type stands for the engines' tables; fixed UTC zone (zones are C06's subject)",
     "budget": {"quick": 40, "thorough": 900},
     "rule": ("each seed draws interval (1-3 days or 1/6/12 hours) and TTL (1-6 days), then 4-24 operations: write at a time within/older than the TTL window, at now, or in the future (clock skew), "
              "advance the clock (minutes, days, exactly +-1ms onto a segment's expiry edge, just past the next 00:05), forced cleanup, 50 ticks at one instant; finally one more cron time. "
              "Non-trivial = more than one segment existed; distinct = canonical event-log digests"),
-    "expected_probes": ["fault.restart_with_changed_segment_interval", "fault.restart", "reach.expired_segment_removed", "reach.expired_but_not_yet_deleted_is_hidden", "reach.clock_lands_on_expiry_edge", "reach.cron_time_passed", "fault.future_timestamp_write", "reach.forced_cleanup_removed_oldest"],
+    "expected_probes": ["reach.forced_cleanup_over_groups_removed_a_segment", "fault.restart_with_changed_segment_interval", "fault.restart", "reach.expired_segment_removed", "reach.expired_but_not_yet_deleted_is_hidden", "reach.clock_lands_on_expiry_edge", "reach.cron_time_passed", "fault.future_timestamp_write", "reach.forced_cleanup_removed_oldest"],
     "real_vs_stub": {
         "real": ["banyand/internal/storage: OpenTSDB, segmentController (select/remove/removeOldest), rotation task, retention task + pkg/timestamp scheduler (cron), retention gate"],
         "stub": ["table type (trivial)", "clock (testing/synctest)"],
